@@ -304,6 +304,26 @@ class G:
                   [("non_bool_condition", ["while %s {" % w, "  break", "}"], (0, 2), "while <- %s" % t2),
                    ("non_bool_condition", ["while gob {", "  break", "}"], (0, 2), "while <- bool?")])
 
+    def t_from_loop(self):
+        """the bounds and the step of a `from` loop are numbers: each of the three positions, whatever the other two are"""
+        n = self.uid()
+        base = ["lt%d = 0" % n, "from 1 to gi + 2, lj%d {" % n, "  lt%d = lt%d + lj%d" % (n, n, n), "}",
+                "from 0 through 4 step 2, lk%d {" % n, "  lt%d = lt%d + lk%d" % (n, n, n), "}"]
+
+        def mut(i, line):
+            m = list(base)
+            m[i] = line
+            return m
+        muts = []
+        for bad, what in (("gs", "str"), ("gb", "bool"), ("goi", "int?"), ("gl", "[int...]"), ("gp", "an object"), ("\"3\"", "a str literal")):
+            muts.append(("non_numeric_loop_bound", mut(1, "from 1 to %s, lj%d {" % (bad, n)), (1, 3), "upper bound <- %s (lower bound numeric)" % what))
+            muts.append(("non_numeric_loop_bound", mut(1, "from %s to 4, lj%d {" % (bad, n)), (1, 3), "lower bound <- %s (upper bound numeric)" % what))
+            if bad != "goi":        # operators see through an optional operand (`1 + o` is typed like `1 + 2`), and the step is the operand of `+`
+                muts.append(("non_numeric_loop_bound", mut(4, "from 0 through 4 step %s, lk%d {" % (bad, n)), (4, 6), "step <- %s" % what))
+            muts.append(("non_numeric_loop_bound", mut(4, "from 0 through %s step 2, lk%d {" % (bad, n)), (4, 6), "upper bound of a stepped loop <- %s" % what))
+        muts.append(("unknown_name", mut(1, "from 1 to nope%d, lj%d {" % (n, n)), (1, 3), "upper bound"))
+        return St("from_loop", base, muts)
+
     def t_cond_elseif(self):
         n = self.uid()
         w, t2 = self.wrong("bool")
@@ -434,7 +454,8 @@ class G:
         """`a[i] = v` / `a[i] op= v`: the target must be a list or map element of the value's type; a str has no element to replace"""
         n = self.uid()
         w, t2 = self.wrong("int")
-        base = ["iw%d: [int...] = [1, 2, 3]" % n, "is%d = \"abc\"" % n, "iw%d[0] = %s" % (n, self.e("int")), "iw%d[1] += 2" % n, "ic%d = is%d[0]" % (n, n)]
+        base = ["iw%d: [int...] = [1, 2, 3]" % n, "is%d = \"abc\"" % n, "iw%d[0] = %s" % (n, self.e("int")), "iw%d[1] += 2" % n, "ic%d = is%d[0]" % (n, n),
+                "im%d = map[str, int]" % n, "im%d[\"a\"] = 4" % n, "in%d: [[int...]...] = [[1], [2]]" % n, "in%d[0] = [3]" % n]
 
         def mut(i, line):
             m = list(base)
@@ -445,6 +466,10 @@ class G:
                    ("index_non_indexable", mut(3, "is%d[0] += \"x\"" % n), (3, 3), "element of a str op-assigned"),
                    ("index_non_indexable", mut(2, "gi[0] = 1"), (2, 2), "element of an int assigned"),
                    ("wrong_reassign", mut(2, "iw%d[0] = %s" % (n, w)), (2, 2), "list element int <- %s" % t2),
+                   # a `T?` may be nil: it does not fit a plain `T` slot of a list, a map or a nested list
+                   ("wrong_reassign", mut(2, "iw%d[0] = goi" % n), (2, 2), "list element int <- int? (optional into a plain slot)"),
+                   ("wrong_reassign", mut(6, "im%d[\"a\"] = goi" % n), (6, 6), "map value int <- int? (optional into a plain slot)"),
+                   ("wrong_reassign", mut(8, "in%d[0] = [goi]" % n), (8, 8), "list element [int...] <- [int?...]"),
                    ("index_with_non_index", mut(2, "iw%d[%s] = 1" % (n, self.wrong("int")[0])), (2, 2), "write through a non-index")])
 
     def t_obj_field(self):
@@ -485,6 +510,7 @@ class G:
                    dmut("unknown_field", 6, "    return self.nofield%d" % n, "self.nofield"),
                    dmut("missing_return", 6, "    self.x = self.x + 0", "method declared -> int reaches its end without a return"),
                    dmut("wrong_reassign", 9, "    self.x = %s" % w, "field int <- %s in method" % t2),
+                   dmut("wrong_reassign", 9, "    self.x = goi", "field int <- int? in method (optional into a plain field)"),
                    # a method is reached through `self`: its bare name is not a variable of the class body
                    dmut("unknown_name", 9, "    self.x = fetch() + d", "another method called by its bare name"),
                    dmut("unknown_name", 6, "    return bump", "another method named without self"),
@@ -666,7 +692,7 @@ class G:
     TEMPLATES = ["t_decl_annot", "t_decl_alias", "t_decl_optional", "t_reassign", "t_call1", "t_call2", "t_mcall", "t_field",
                  "t_fn_ret", "t_fn_void", "t_cond_if", "t_cond_while", "t_cond_elseif", "t_index_list", "t_index_map", "t_binop",
                  "t_unary", "t_map_value", "t_list_elem", "t_class_def", "t_opassign_fit", "t_fn_ret_shapes", "t_fixed_list", "t_obj_field", "t_index_write", "t_fn_typed",
-                 "t_self_sig", "t_assert", "t_unpack", "t_unwrap_into", "t_declaration_shape"]
+                 "t_self_sig", "t_assert", "t_unpack", "t_unwrap_into", "t_declaration_shape", "t_from_loop"]
     CONTEXTS = ["top", "function", "closure", "method", "constructor", "if", "else_if", "else", "while", "from"]
 
     # ---------------------------------------------------------------- contexts
